@@ -1,47 +1,9 @@
 (* Proofs/BitsOps2.v — set_substring as arithmetic insertion, bit_not, byte reversal. *)
 From Coq Require Import ZArith Znumtheory Bool Lia ZifyBool List.
-From ArmV Require Import Lib.PyZ Spec.Pseudocode Spec.Expected Proofs.BitLemmas Proofs.BitsOps.
+From ArmV Require Import Lib.PyZ Spec.Pseudocode Spec.Expected Proofs.BitLemmas Proofs.SpecFacts Proofs.BitsOps.
 From Gen Require Import bits_ops.
 Open Scope Z_scope.
 Ltac Zify.zify_post_hook ::= Z.to_euclidean_division_equations.
-
-Lemma insert_decomp x hi lo v : 0 <= lo <= hi ->
-  insert x hi lo v = (x / 2 ^ (hi + 1)) * 2 ^ (hi + 1) + v * 2 ^ lo + x mod 2 ^ lo.
-Proof.
-  intros H. unfold insert, bits.
-  assert (P1 : 0 < 2 ^ lo) by (apply pow_pos; lia).
-  assert (P2 : 0 < 2 ^ (hi - lo + 1)) by (apply pow_pos; lia).
-  assert (S : 2 ^ (hi + 1) = 2 ^ lo * 2 ^ (hi - lo + 1)) by (rewrite <- Z.pow_add_r by lia; f_equal; lia).
-  rewrite S. rewrite <- Z.div_div by lia.
-  pose proof (Z.div_mod x (2 ^ lo) ltac:(lia)) as D1.
-  pose proof (Z.div_mod (x / 2 ^ lo) (2 ^ (hi - lo + 1)) ltac:(lia)) as D2.
-  set (q := x / 2 ^ lo) in *. set (q2 := q / 2 ^ (hi - lo + 1)) in *. set (r2 := q mod 2 ^ (hi - lo + 1)) in *.
-  set (r := x mod 2 ^ lo) in *. nia.
-Qed.
-
-Lemma testbit_insert x hi lo v i : 0 <= lo <= hi -> 0 <= x -> 0 <= v < 2 ^ (hi - lo + 1) -> 0 <= i ->
-  Z.testbit (insert x hi lo v) i = if (lo <=? i) && (i <=? hi) then Z.testbit v (i - lo) else Z.testbit x i.
-Proof.
-  intros H Hx Hv Hi. rewrite insert_decomp by lia.
-  assert (P1 : 0 < 2 ^ lo) by (apply pow_pos; lia).
-  assert (S : 2 ^ (hi + 1) = 2 ^ lo * 2 ^ (hi - lo + 1)) by (rewrite <- Z.pow_add_r by lia; f_equal; lia).
-  pose proof (Z.mod_pos_bound x (2 ^ lo) P1) as RL.
-  (* low + mid < 2^(hi+1) *)
-  assert (M : 0 <= x mod 2 ^ lo + v * 2 ^ lo < 2 ^ (hi + 1)) by (rewrite S; nia).
-  replace (x / 2 ^ (hi + 1) * 2 ^ (hi + 1) + v * 2 ^ lo + x mod 2 ^ lo)
-    with ((x mod 2 ^ lo + v * 2 ^ lo) + x / 2 ^ (hi + 1) * 2 ^ (hi + 1)) by lia.
-  rewrite <- lor_disjoint_add by lia. rewrite <- (lor_disjoint_add (x mod 2 ^ lo)) by lia.
-  rewrite !Z.lor_spec.
-  destruct (lo <=? i) eqn:E1; cbn [andb].
-  - rewrite Z.mod_pow2_bits_high by lia. cbn [orb].
-    rewrite (Z.mul_pow2_bits v lo) by lia.
-    destruct (i <=? hi) eqn:E2.
-    + rewrite (Z.mul_pow2_bits_low _ (hi + 1)) by lia. apply orb_false_r.
-    + rewrite (tb_small v (hi - lo + 1)) by lia. cbn [orb].
-      rewrite Z.mul_pow2_bits by lia. rewrite Z.div_pow2_bits by lia. f_equal. lia.
-  - rewrite Z.mod_pow2_bits_low by lia. rewrite Z.mul_pow2_bits_low by lia.
-    rewrite (Z.mul_pow2_bits_low _ (hi + 1)) by lia. rewrite !orb_false_r. reflexivity.
-Qed.
 
 Theorem set_substring_insert b hi lo v :
   0 <= lo <= hi -> hi < 256 -> 0 <= b < 2 ^ 256 -> 0 <= v < 2 ^ (hi - lo + 1) ->
